@@ -564,14 +564,27 @@ def provenance_obligations(rep):
                             function='yp_generator.' + q, witness=probs or None)
     # the sinks
     g = mod.functions
+    def returns_only(fn, shape):
+        """every return statement of the sink returns a call of the given shape (a literal is only ever produced by the builtin)"""
+        rets = [n for n in core.walk_own(fn) if isinstance(n, ast.Return)]
+        bad = [r for r in rets if not shape(r.value)]
+        return bool(rets) and not bad, ['line %d: %s' % (r.lineno, ast.unparse(r)[:70]) for r in bad]
+
+    def is_repr(v):
+        return isinstance(v, ast.Call) and isinstance(v.func, ast.Name) and v.func.id == 'repr' and len(v.args) == 1 and not v.keywords
+
+    def is_str_int(v):
+        return isinstance(v, ast.Call) and isinstance(v.func, ast.Name) and v.func.id == 'str' and len(v.args) == 1 and not v.keywords \
+            and isinstance(v.args[0], ast.Call) and isinstance(v.args[0].func, ast.Name) and v.args[0].func.id == 'int' and len(v.args[0].args) == 1
     checks = [
-        ('YPPythonCodeGenerator.generate_expr', r'return repr\(expr\.expr\)', 'emits repr(text): a Python literal (A-CPY-REPR)'),
-        ('YPPythonCodeGenerator.generate_value', r'return str\(int\(expr\.val\)\)', 'emits str(int(text)): a decimal integer literal'),
+        ('YPPythonCodeGenerator.generate_expr', is_repr, 'every return is repr(<text>): a Python literal (A-CPY-REPR)'),
+        ('YPPythonCodeGenerator.generate_value', is_str_int, 'every return is str(int(<text>)): a decimal integer literal'),
     ]
-    for q, pat, what in checks:
+    for q, shape, what in checks:
         fn = g.get(q)
-        ok = fn is not None and re.search(pat, ast.unparse(fn)) is not None
-        rep.add_checked('yp_generator.%s.sink' % q, ok, '' if ok else 'sink body changed: expected ' + what, 'ast', function='yp_generator.' + q)
+        ok, bad = returns_only(fn, shape) if fn is not None else (False, ['function not found'])
+        rep.add_checked('yp_generator.%s.sink' % q, ok, '' if ok else 'sink body changed (%s): %s' % (what, '; '.join(bad)), 'ast',
+                        function='yp_generator.' + q, witness=None if ok else bad)
     # the visitor guards the identifier sinks
     v = core.module('yp_prolog_visitor')
     fn = v.functions.get('YPPrologVisitor.visitClause')
